@@ -652,6 +652,7 @@ pub fn run(ctx: &Ctx) -> Report {
         cases.push(Case::BufLen(w));
     }
     let every_pixel = ctx.tier_thorough && !miri;
+    let cases = crate::report::shard(cases, ctx.shard);
     let threads = if miri { 1 } else { ctx.threads };
     let mut rep = par_run(&cases, threads, |_i, c, rep| match c {
         Case::Alias(i) => alias_check(&al[*i], rep),
